@@ -118,6 +118,16 @@ CLAIMS["C33"] = dict(
     note="format!, str::parse::<u64>, split_once, starts_with/ends_with are environment models on ASCII strings (core::fmt and core's string searchers are out of reach for CBMC); decimal expansion uniqueness is used as a lemma (registered digits).",
 )
 
+CLAIMS["C41"] = dict(
+    engine="kani-transplant",
+    technique="bounded symbolic execution of the chunker state machines (BreakStreamState, BatchReaderChunker, StrictBatchSizeStream::poll_next, lifted to synchronous code) with Kani+CBMC over symbolic batch lengths and chunk sizes",
+    text=("Decides for <=3 input batches of arbitrary lengths and every chunk size that the stream re-chunkers deliver every input row exactly once and in order: "
+          "break_stream pieces concatenate to the batch and never cross a multiple of max_rows; chunk_stream chunks have exactly the requested size until the "
+          "input is exhausted; StrictBatchSizeStream outputs exactly batch_size rows except a final shorter batch; no empty outputs. The replay spill (files, "
+          "watch channels) is I/O and concurrency and is NOT claimed."),
+    note="RecordBatch is modelled by the run of abstract input rows it holds; the inner stream is an always-ready iterator (no Pending interleavings).",
+)
+
 _IO = "truth lives in async object-store/tokio orchestration (crash points, interleavings, listings); Kani/CBMC has no model of tokio or object_store and no pure kernel implies the statement"
 NOT_APPLICABLE.update({
     "C01": "commit atomicity over crash points: " + _IO,
@@ -146,5 +156,5 @@ NOT_APPLICABLE.update({
     "C42": "relocatability is a statement about every path written by every writer being relative; decided by I/O",
 })
 _PLANNED = "planned in DESIGN.md §5 but its check is not built yet, so it is not claimed"
-for _p in ["C09", "C17", "C19", "C26", "C27", "C29", "C32", "C36", "C41", "C43"]:
+for _p in ["C09", "C17", "C19", "C26", "C27", "C29", "C32", "C36", "C43"]:
     NOT_APPLICABLE.setdefault(_p, _PLANNED)
